@@ -19,7 +19,7 @@ pub fn case(ctx: &Ctx, shard: usize, index: u64, rep: &mut Report) {
     rep.evaluations += 1;
     let coords = || crate::mon::coords("C15", ctx, shard, index);
     let sorenson = rng.chance(3, 5);
-    let flavour = if sorenson { Flavour::Sor(rng.below(2) as u8) } else if rng.chance(1, 8) { Flavour::StdFixed } else { Flavour::StdPlus };
+    let flavour = if sorenson { Flavour::Sor(if rng.chance(1, 6) { 2 + rng.below(30) as u8 } else { rng.below(2) as u8 }) } else if rng.chance(1, 8) { Flavour::StdFixed } else { Flavour::StdPlus };
     let pick_size = |rng: &mut Rng| -> (usize, usize) {
         if flavour == Flavour::StdFixed {
             let f = STD_FIXED[rng.below(2) as usize];
